@@ -86,8 +86,8 @@ def random_transfer(seed, idx, fam="xfer", lossy=True, sizes=(1, 200000), allow_
     link = rng.choice([148, 300, 576, 1000, 1280, 1500, 1500, 1500])
     v6 = rng.random() < 0.15 and link >= 1280
     rx = rng.choice([2048, 4096, 16384, 65536, 1 << 20])
-    tx_init = rng.choice([1024, 4096, 32768, 1 << 20])
-    tx_max = rng.choice([tx_init, 4 * tx_init, 1 << 20])
+    tx_init = rng.choice([1024, 4096, 32768, 1 << 20, 3000, 24576])
+    tx_max = rng.choice([tx_init, 4 * tx_init, 1 << 20, 3 * tx_init, tx_init * 5 // 3, 40960])
     nagle = rng.random() < 0.7
     mtu_min = 68 if not v6 else 88
     if link < 100:
@@ -216,8 +216,9 @@ def peer_send(seed, idx, fam="peer_send"):
     mss = LINKS[link]
     lat = rng.choice([500, 1000, 5000])
     nagle = rng.random() < 0.6
-    tx_init = rng.choice([64, 1024, 4096, 32768])
-    tx_max = rng.choice([tx_init, tx_init * 4, 1 << 20])
+    tx_init = rng.choice([64, 1024, 4096, 32768, 3000, 24576])
+    # (the buffer grows by doubling: maxima that are not the initial size times a power of two included)
+    tx_max = rng.choice([tx_init, tx_init * 4, 1 << 20, tx_init * 3, tx_init * 5 // 3, tx_init + 1, 40960])
     opts = dict(link_mtu=link, nagle=nagle, tx_init=tx_init, tx_max=tx_max, max_retx=rng.choice([2, 3, 5]))
     active = rng.random() < 0.5
     pw = rng.choice([1 << 20, 10 * mss, 2 * mss])
@@ -271,7 +272,9 @@ def peer_recv(seed, idx, fam="peer_recv"):
         if k < 0.55:
             st.append(peer("data", len=plen))
         elif k < 0.70:
-            st.append(peer("data", len=plen, ahead=rng.choice([1, 2, 3, 10])))
+            # (the last values: the far end of the reassembly window, one slot per largest payload)
+            slots = max(1, rx // max(1, LINKS[link]))
+            st.append(peer("data", len=plen, ahead=rng.choice([1, 2, 3, 10, max(1, slots - 1), max(1, slots - 2), slots])))
         elif k < 0.80:
             st.append(peer("fill", len=plen, count=rng.choice([1, 2, 3])))
         elif k < 0.90:
